@@ -82,6 +82,64 @@ def units(tier):
             nm = dt.name + (f"_{split}" if split is not None else "")
             u[nm] = Unit(nm, PROP, fn, functions=[PARSE])
 
+    # a VALID broadcast is delivered exactly once, also when the callback raises (the per-family well-formedness of C05)
+    for dt in DT:
+        cat = dt.category.name
+        splits = range(20) if cat == "THERMOSTAT" else [None]
+        for split in splits:
+            def valid(ip, ctx, dt=dt, cat=cat, split=split):
+                m = datagram(ctx, dt, LEN_OF[cat])
+                if split is not None:
+                    ts = m.segs[0].terms
+                    ctx.assume(z3.And(ts[138] == 1 + split // 4, ts[140] / 16 == split % 4))
+                if cat in ("WATER_HEATER", "POWER_PLUG"):
+                    wf = ip.call_function(func("spec.wf_type1"), [m, cat == "WATER_HEATER"], {}, ctx)
+                elif cat == "SHUTTER":
+                    wf = ip.call_function(func("spec.wf_shutter_bc"), [m], {}, ctx)
+                else:
+                    wf = ip.call_function(func("spec.wf_breeze_bc"), [m], {}, ctx)
+                ctx.assume(ip.truth(wf, ctx))
+                cb = EnvObj("callback", may_raise=True)
+                ob = outcome_of(lambda: ip.call_function(func(PARSE), [cb, m], {}, ctx))
+                if ob[0] == "exc" and getattr(ob[1], "alts", None):
+                    return []          # the name is not valid UTF-8 (get_name's contract raised): not a valid broadcast
+                base = f"{PROP}/valid_{dt.name}" + (f"/case{split}" if split is not None else "")
+                return [Obligation(base + "/delivered_exactly_once", ctx, len(ctx.ghost.callback_calls) == 1,
+                                   note=f"{len(ctx.ghost.callback_calls)} calls, outcome {ob[0]} {ob[1].cls if ob[0] == 'exc' else ''}"),
+                        Obligation(base + "/only_the_callbacks_own_exception_escapes", ctx, ob[0] == "ret" or ob[1].cls == "CallbackError")]
+            nm = "valid_" + dt.name + (f"_{split}" if split is not None else "")
+            u[nm] = Unit(nm, PROP, valid, functions=[PARSE], params={"may_be_empty": True})
+
+    # whenever the bridge reports running (also after a restart) every configured port has an open transport wired to the parser
+    from . import c17 as C17
+    for first in range(4):
+        def wiring(ip, ctx, first=first):
+            ALPHA = ["start_ok", "stop", "start_fail1", "leave_exc"]
+            n = 2
+            length = 1 + ctx.fork(4)
+            seq = [ALPHA[first]] + [ALPHA[ctx.fork(len(ALPHA))] for _ in range(length - 1)]
+            b, cb = C17.new_bridge(ip, ctx, n)
+            ctx.sockets = []
+            obs, hist = [], []
+            for step, a in enumerate(seq):
+                hist.append(a)
+                ctx.call_no = step + 1
+                ctx.ghost.events.clear()
+                if a.startswith("start"):
+                    ctx.fail_at_bind = 1 if a == "start_fail1" else None
+                    outcome_of(lambda: ip.call_function(b.cls.find_method("start"), [b], {}, ctx))
+                elif a == "stop":
+                    outcome_of(lambda: ip.call_function(b.cls.find_method("stop"), [b], {}, ctx))
+                else:
+                    outcome_of(lambda: ip.call_function(b.cls.find_method("__aexit__"), [b, object(), ExcVal("ValueError", ("x",)), None], {}, ctx))
+                if ip.getattr(b, "is_running", ctx) is True:
+                    open_t, rec = C17.view(ctx, b, n)
+                    ok = all(isinstance(rec.get(p), EnvObj) and not rec[p].state["closed"] and C17.wired(ip, rec[p], cb) for p in C17.PORTS[:n])
+                    obs.append(Obligation(f"{PROP}/bridge_history/" + ">".join(hist) + "/running_means_every_port_delivers", ctx, ok))
+            return obs
+        u[f"wiring_{first}"] = Unit(f"wiring_{first}", PROP, wiring, functions=[B + "SwitcherBridge.start", B + "SwitcherBridge.stop"],
+                                    params={"may_be_empty": True})
+
     def dep_name(ip, ctx):
         m = sym_bytes(ctx, "m", 165)
         parser = ip.instantiate(cls(B + "DatagramParser"), [m], {}, ctx)
